@@ -92,7 +92,7 @@ def main():
                 idx += 1
                 if idx % nshards != shard:
                     continue
-                if L == depth and rnd.random() > (0.35 if quick else 0.5):
+                if L == 4 and rnd.random() > 0.3:
                     continue
                 emit('seq', prefix + list(seq), {})
     # validator verdicts: a full transaction skeleton x every verdict assignment
